@@ -18,17 +18,23 @@ void harness(void)
   srv        = world_add_server(&M_ch, 0, vp_range(0, 2));
   conn       = world_add_conn(&M_ch, srv, vp_bool());
   n          = NQ;
-  M_now.sec  = (ares_int64_t)vp_range(1000, 1010);
+  M_now.sec  = (ares_int64_t)vp_range(1000, 1003);
   M_now.usec = (unsigned int)vp_range(0, 999999);
+  /* the timeout index is built with a CONCRETE structure (q[0] before q[1]); the deadlines are then made symbolic under
+   * the assumption that they respect that order - every sorted 2-element index is covered up to renaming */
   for (i = 0; i < n; i++) {
     q[i]   = M_new_query();
     tok[i] = M_ntok - 1;
-    M_attach(q[i], conn, (ares_int64_t)vp_range(1000, 1010));
-    q[i]->timeout.usec = (unsigned int)vp_range(0, 999999);
-    ares_slist_node_reinsert(q[i]->node_queries_by_timeout);
-    expired[i] = (q[i]->timeout.sec < M_now.sec) || (q[i]->timeout.sec == M_now.sec && q[i]->timeout.usec <= M_now.usec);
-    to0[i]     = q[i]->timeouts;
+    M_attach(q[i], conn, (ares_int64_t)(1 + i));
   }
+  for (i = 0; i < n; i++) {
+    q[i]->timeout.sec  = (ares_int64_t)vp_range(1000, 1003);
+    q[i]->timeout.usec = (unsigned int)vp_range(0, 999999);
+    to0[i]             = q[i]->timeouts;
+  }
+  if (n == 2) VP_ASSUME(world_query_timeout_cmp(q[0], q[1]) <= 0);
+  for (i = 0; i < n; i++)
+    expired[i] = (q[i]->timeout.sec < M_now.sec) || (q[i]->timeout.sec == M_now.sec && q[i]->timeout.usec <= M_now.usec);
   fail0 = srv->consec_failures;
 
   st = process_timeouts(&M_ch, &M_now);
@@ -43,19 +49,22 @@ void harness(void)
                   "an expired request is retried as a timeout that consumes retry budget");
       }
     if (expired[i]) {
-      VP_ASSERT(calls[i] == 1, "a request at or past its deadline is retried or failed, exactly once");
+      /* memory exhaustion aborts the pass; the requests not reached keep their place in the index for the next pass */
+      VP_ASSERT(calls[i] == 1 || (st == ARES_ENOMEM && calls[i] == 0 && q[i]->node_queries_by_timeout != NULL),
+                "a request at or past its deadline is retried or failed, exactly once (or still indexed after an out-of-memory abort)");
     } else {
       VP_ASSERT(calls[i] == 0, "a request whose deadline lies in the future is not touched");
       VP_ASSERT(M_cb_count[tok[i]] == 0 && q[i]->conn == conn && q[i]->timeouts == to0[i], "untouched request stays in flight");
     }
   }
   VP_ASSERT(srv->consec_failures == fail0 + (size_t)RQ_calls, "each timeout demotes the server once");
+  if (st != ARES_ENOMEM) VP_WITNESS("pass completed");
   if (RQ_calls == n && n == 2) VP_WITNESS("both expired");
   if (RQ_calls == 0) VP_WITNESS("none expired");
   /* afterwards the earliest remaining deadline is in the future */
   {
     ares_query_t *first = ares_slist_first_val(M_ch.queries_by_timeout);
-    if (first != NULL) VP_ASSERT(!ares_timedout(&M_now, &first->timeout), "no expired request is left in the timeout index");
+    if (first != NULL && st != ARES_ENOMEM) VP_ASSERT(!ares_timedout(&M_now, &first->timeout), "no expired request is left in the timeout index");
   }
   VP_WITNESS("end");
 }
